@@ -308,7 +308,7 @@ pub fn main(tier: Option<&str>) {
          chunks every order with <= 2 deviations from FIFO, up to 64 chunks <= 1 deviation, beyond that the FIFO and the newest-first order only; both data_get (private data map) and data_get_public. Non-trivial = length >= 3. \
          Each chunk of a small input in turn unavailable for good / the first time it is asked for. Upload layer: data_put and data_put_public with a receipt for every chunk through a harness network \
          (shipped build: lengths 3, 4, 8; small build: 3, 100, 3 and 4 chunks + 1 byte, 6000, 12 chunks (thorough: up to 100 chunks)), which waiting put the network takes next is a choice \
-         (<= 1 deviation up to 4 chunks, FIFO beyond), faults: none, the k-th put refused, the k-th put acknowledged but lost (k < 4(8)), every put of one chunk (the first / the last the network is offered) refused the first 2, 6, 7 times or for good.",
+         (<= 1 deviation up to 4 chunks, FIFO beyond), faults: none, the k-th put refused, the k-th put acknowledged but lost (k < 4(8)), every put of one chunk (the first / the last the network is offered) refused the first 6 times or for good in FIFO order (thorough: 2, 6, 7 times or for good, <= 1 deviation).",
     );
     run.assume("contents: 3 patterns (zeros, counter, xorshift); the small-chunk build uses the self_encryption crate's own compile-time MAX_CHUNK_SIZE knob");
     if max != 1024 * 1024 {
